@@ -118,7 +118,7 @@ func mutationsFor(rel, class string, orig []byte, rng *rand.Rand, thorough bool)
 	n := len(orig)
 	budget := 24
 	if thorough {
-		budget = 4096
+		budget = 600
 	}
 	pick := func(total int) []int {
 		idx := make([]int, 0, total)
@@ -163,7 +163,7 @@ func mutationsFor(rel, class string, orig []byte, rng *rand.Rand, thorough bool)
 	}
 	for _, i := range pick(n) {
 		vals := []int{int(orig[i]) ^ 1, int(orig[i]) ^ 0x80, 0, 0x20, 0x0a, 0xff, '0', '9', 'z', '/'}
-		if thorough && i < 24 {
+		if thorough && i < 16 && class != "object" {
 			vals = vals[:0]
 			for v := 0; v < 256; v++ {
 				vals = append(vals, v)
